@@ -118,15 +118,18 @@ func (h *inFlightRequestsHandler) onIncomingFrameReceived(f *frame.Frame) error 
 	}
 	h.inFlightLock.RUnlock()
 	if err == nil {
+		var releaseErr error
 		if isLastFrame(f) {
 			h.removeInFlight(streamId)
 			if inFlight.managedStreamId {
-				if err := h.releaseStreamId(streamId); err != nil {
-					return err
-				}
+				// a failure here (the handler was closed meanwhile) must not stop the delivery: the request is no
+				// longer in the table that close() sweeps, so nobody else would ever complete it
+				releaseErr = h.releaseStreamId(streamId)
 			}
 		}
-		err = inFlight.onFrameReceived(f)
+		if err = inFlight.onFrameReceived(f); err == nil {
+			err = releaseErr
+		}
 	}
 	return err
 }
